@@ -153,8 +153,11 @@ def nested_part(check_id: str, parts: list, env: dict, name: str, why: str) -> "
             rec.cls("already-nested")
             return
         rec.nt(True)
+        # the child's replay files (single cases) are kept below the parent's output directory: replay one of them with
+        # the same environment variables set, e.g. `PYTHONOPTIMIZE=1 ./check <ID> --replay <file>`
+        nested_out = os.path.join(os.environ.get("VERIF_OUT_DIR") or os.path.join(VERIF, "out"), "nested", name)
         with tempfile.TemporaryDirectory(prefix="verif_nested_") as tmp:
-            e = dict(os.environ, VERIF_EVIDENCE_DIR=os.path.join(tmp, "ev"), VERIF_OUT_DIR=os.path.join(tmp, "out"), VERIF_QUICK_PROCS="2", VERIF_TIER="quick")
+            e = dict(os.environ, VERIF_EVIDENCE_DIR=os.path.join(tmp, "ev"), VERIF_OUT_DIR=nested_out, VERIF_QUICK_PROCS="2", VERIF_TIER="quick")
             e[marker] = "1"
             e.update(case["environment"])
             p = subprocess.run([sys.executable, os.path.join(VERIF, "check"), check_id, "--tier", "quick", "--parts", ",".join(case["parts"]), "--no-shrink"],
@@ -162,9 +165,10 @@ def nested_part(check_id: str, parts: list, env: dict, name: str, why: str) -> "
         out = p.stdout.decode("utf8", "replace")
         lines = out.splitlines()
         fails = [ln for ln in lines if ln.startswith("FAIL property=")]
+        envtxt = " ".join(f"{k}={v}" for k, v in sorted(case["environment"].items()))
         for ln in fails[:5]:
             bucket = ln.split("bucket=", 1)[1].split(" ", 1)[0] if "bucket=" in ln else "?"
-            rec.fail(f"{name}:" + bucket, ln[:600])
+            rec.fail(f"{name}:" + bucket, {"single_case_replays": f"{envtxt} ./check {check_id} --replay {nested_out}/violations/{check_id}/<bucket>.json", "child": ln[:500]})
         summary = [ln for ln in lines if " tier=quick " in ln and "cases=" in ln]
         if p.returncode not in (0, 1) or not summary or (p.returncode == 1 and not fails):
             raise HarnessError(f"nested run with {case['environment']} failed (exit {p.returncode}): {(out + p.stderr.decode('utf8', 'replace'))[-800:]}")
